@@ -105,7 +105,7 @@ Plan genFaulty(const std::string& prop, int tier, uint64_t batchSeed, uint64_t i
         nodeType[i] = r.chance(1, 2) ? 1 : 2;
         Item& n = g.addNode(static_cast<int>(i + 1), nodeType[i], eps[i].first, eps[i].second);
         if (nodeType[i] == 2)
-            n.set("ctr0", r.chance(1, 4) ? r.range(65500, 65535) : static_cast<int64_t>(r.below(65536)));
+            n.set("ctr0", r.chance(1, 3) ? (r.pick<int64_t>({0x10000, 0x8000, 0x100}) - 1 - static_cast<int64_t>(r.below(30))) : static_cast<int64_t>(r.below(65536)));
         n.set("gap", r.pick<int64_t>({1, 2, 5, 10}));
     }
     const size_t nOps = sweep ? 4 + r.below(5) : 3 + r.below(tier ? 30 : 14);
@@ -139,7 +139,8 @@ Plan genFaulty(const std::string& prop, int tier, uint64_t batchSeed, uint64_t i
                         addFault(op, F_DROP, fr);
                         break;
                     case 1:
-                        addFault(op, F_DUP, fr, (salt % 3 == 0) ? 0 : (salt % 3 == 1 ? gap : gap * 2 + 1));
+                        // the copy arrives back to back, one or two frames later, or after the message (and the next one) has gone by
+                        addFault(op, F_DUP, fr, (salt % 5 == 0) ? 0 : (salt % 5 == 1 ? gap : (salt % 5 == 2 ? gap * 2 + 1 : gap * static_cast<int64_t>(3 + (salt >> 8) % 12) + 1)));
                         break;
                     case 2:
                         addFault(op, F_DELAY, fr, gap + 1 + static_cast<int64_t>(salt % 3) * gap);  // swap with a neighbour
